@@ -16,8 +16,17 @@ hypotheses: success of save into a good stream, `C03.SaveDomain o hdr` (decidabl
 C04's writer-domain condition at the turn of the segment (`layoutDomB false false sel`, a Bool function of the
 input; for the nested case `layoutSelB segNestedStartB`, the member lists' inclusion, and the first member
 file-occupying with the explicit address that is the nested segment's p_vaddr), the section is a file-occupying
-member.  Non-vacuity on C03.exBuiltObj (made through the model's API).  Only covered by correspondence/oracle: that the model's load satisfies `Loaded` on
-writer output, equality (not only >=) of reloaded memory sizes, ELF32 equidistance.
+member.  Non-vacuity on C03.exBuiltObj (made through the model's API).  The abstract `Loaded` is discharged in Props/Compose.lean (+ Lemmas/RoundTrip.lean):
+RoundTrip.loaded_of_wellFormed (the model's eager `load` of EVERY C02-well-formed image satisfies `Loaded`),
+Compose.loaded_satisfies_Loaded / _flat (the bytes of a successful `save` are a well-formed image —
+Compose.saved_wellFormed — so the model's load of writer output satisfies `Loaded`; it has the saved object's
+class, byte order and header) and Compose.reload_resave_fields / _flat (`loaded_resave_fields` for the real
+reload: save, load the bytes, same sections — name offset, type, flags, size, link, info, alignment, entry
+size, address if set, data — and segments).  `_flat`: hypotheses on the input object only (`FlatDomain`:
+C03.SaveDomain + bookkeeping + flat segments) plus "no address/offset range of the saved object reaches 2^64".
+After a LAZY reload the data clause holds once the data have been requested (RoundTrip.Reloaded.sec).
+Only covered by correspondence/oracle: `Loaded` for the re-saved form of a LOADED (not created) object with
+nested segments, equality (not only >=) of reloaded memory sizes, ELF32 equidistance.
 Correspondence: family load.  Oracle: object 0 loads the image and is
 observed, is optionally edited (add a section; append to a section that belongs to no segment; add a
 string / symbol / note through the accessors' underlying append), saved and reloaded (eager or lazy),
@@ -41,7 +50,13 @@ THEOREMS = ["ElfioVerif.C05.save_writes_fields",
             "ElfioVerif.C05.edit_frame",
             "ElfioVerif.C05.edit_frame_add_section",
             "ElfioVerif.C05.image_bytes_at_same_vaddr_of_save",
-            "ElfioVerif.C05.image_bytes_at_same_vaddr_nested_of_save"]
+            "ElfioVerif.C05.image_bytes_at_same_vaddr_nested_of_save",
+            "ElfioVerif.RoundTrip.loaded_of_wellFormed",
+            "ElfioVerif.Compose.loaded_satisfies_Loaded",
+            "ElfioVerif.Compose.loaded_satisfies_Loaded_flat",
+            "ElfioVerif.Compose.reload_resave_fields",
+            "ElfioVerif.Compose.reload_resave_fields_flat"]
+EXTRA_IMPORTS = ["ElfioVerif.Props.Compose"]
 SITES = ["save_", "lsws", "lst_", "lseg", "wsd", "load_s", "sec32_load", "sec64_load"]
 RULE = ("well-formed images whose segment contents are covered by sections (encoder-built linker-like images in 4 "
         "configurations; bundled examples that load) x edit histories {none, add section, append to an unsegmented "
